@@ -356,8 +356,11 @@ pub mod serde_json {
     pub uninterp spec fn ser_text(j: J) -> Seq<char>;          // serde_json's compact text of a JSON value (A-JSON)
     #[verifier::external_body]
     pub fn to_string<T: ToJ>(v: &T) -> (r: Result<String, SerdeError>)
-        ensures r is Ok ==> r->Ok_0@ == ser_text(v.to_j())
+        ensures r is Ok ==> r->Ok_0@ == ser_text(v.to_j()),
+            // A-JSON: whether serialising fails is a matter of the value alone (it never does for the types used here: strings, options, vectors)
+            r is Err ==> ser_fails(v.to_j()),
     { unimplemented!() }
+    pub uninterp spec fn ser_fails(j: J) -> bool;
     pub trait FromText: Sized { spec fn text_parses(s: Seq<char>) -> bool; spec fn text_parsed_as(s: Seq<char>, x: Self) -> bool; }
     #[verifier::external_body]
     pub fn from_str<T: FromText>(s: &str) -> (r: Result<T, SerdeError>)
